@@ -19,6 +19,7 @@ use hydro_lang::sim::compiled::CompiledSim;
 use hydro_lang::sim::{SimClusterReceiver, SimClusterSender};
 use hydro_test::cluster::raft::{LogEntry, RaftConfig, Replica, raft};
 
+#[cfg(stageleft_runtime)]
 pub const META: PropMeta = PropMeta {
     id: "C40",
     quick_runs: 6_000,
@@ -39,6 +40,7 @@ pub const META: PropMeta = PropMeta {
     required_probes: &["raft_entry_committed_by_two_members", "raft_barrier_free_round", "raft_leader_changed_or_contested"],
 };
 
+#[cfg(stageleft_runtime)]
 struct Flow {
     compiled: CompiledSim,
     election: SimClusterSender<(), TotalOrder, ExactlyOnce>,
@@ -48,8 +50,10 @@ struct Flow {
     redirected: SimClusterReceiver<(String, Option<MemberId<Replica>>), TotalOrder, ExactlyOnce>,
 }
 
+#[cfg(stageleft_runtime)]
 const N: usize = 3;
 
+#[cfg(stageleft_runtime)]
 fn build() -> Flow {
     let mut flow = FlowBuilder::new();
     let cluster = flow.cluster::<Replica>();
@@ -70,23 +74,27 @@ fn build() -> Flow {
     Flow { compiled, election, heartbeat, request, committed, redirected }
 }
 
+#[cfg(stageleft_runtime)]
 #[derive(Clone, Debug)]
 enum Act {
     Election(u32),
     Heartbeat(u32),
     Request(u32, String),
 }
+#[cfg(stageleft_runtime)]
 #[derive(Clone, Debug)]
 struct Round {
     acts: Vec<Act>,
     barrier_after: bool,
 }
+#[cfg(stageleft_runtime)]
 #[derive(Clone, Debug)]
 struct Work {
     warmup: bool,
     rounds: Vec<Round>,
 }
 
+#[cfg(stageleft_runtime)]
 fn workload(run_seed: u64) -> Work {
     let mut r = knob_rng(run_seed);
     let warmup = below(&mut r, 4) != 0;
@@ -118,6 +126,7 @@ fn workload(run_seed: u64) -> Work {
     Work { warmup, rounds }
 }
 
+#[cfg(stageleft_runtime)]
 #[derive(Default, Clone, Debug)]
 struct Hist {
     committed: Vec<Vec<LogEntry<String>>>,
@@ -128,6 +137,7 @@ struct Hist {
     lines: Vec<String>,
 }
 
+#[cfg(stageleft_runtime)]
 fn check_histories(h: &[Vec<LogEntry<String>>]) -> Option<(String, String)> {
     for (m, hist) in h.iter().enumerate() {
         for (pos, e) in hist.iter().enumerate() {
@@ -151,6 +161,7 @@ fn check_histories(h: &[Vec<LogEntry<String>>]) -> Option<(String, String)> {
     None
 }
 
+#[cfg(stageleft_runtime)]
 impl Flow {
     fn run(&self, bytes: &[u8], w: &Work) -> (Verdict, String, Hist) {
         let hist = Mutex::new(Hist { committed: vec![vec![]; N], ..Default::default() });
@@ -211,6 +222,7 @@ impl Flow {
     }
 }
 
+#[cfg(stageleft_runtime)]
 fn run_one(f: &Flow, inp: &RunIn<'_>) -> RunOut {
     let w = workload(inp.run_seed);
     let (v, log, h) = f.run(inp.bytes, &w);
@@ -269,6 +281,7 @@ fn run_one(f: &Flow, inp: &RunIn<'_>) -> RunOut {
     out
 }
 
+#[cfg(stageleft_runtime)]
 #[test]
 fn e2e_c40() {
     let Some(cfg) = cfg_for("C40") else { return };
